@@ -169,9 +169,29 @@ def run_case(stream, seed, ctx, params):
             return None
         c.fill['us'] = [us[0]] * len(c.fill['us'])
         c.hints['fill_by_option'] = True
-        variant = rng.choice(['none', 'other-cell'])
+        variant = rng.choice(['none', 'other-cell', 'like-copy'])
         if variant == 'other-cell':
             args += ['--lattice', '%d,%s' % (c.id + 1000, ','.join('%d:%d' % r for r in c.fill['ranges'][:3]))]
+        elif variant == 'like-copy':
+            # the ranges are given for the lattice cell, but not for a copy of it written LIKE n BUT …: the copy is a
+            # lattice cell of its own and has no ranges
+            if len(c.fill['ranges']) > 3:
+                return None
+            args += ['--lattice', '%d,%s' % (c.id, ','.join('%d:%d' % r for r in c.fill['ranges']))]
+            import copy as _copy
+            u2 = max(x.u for x in d.cells) + 1
+            c2 = D.Cell(max(x.id for x in d.cells) + 1, c.expr, mat=c.mat, rho=c.rho, imp=c.imp, u=u2,
+                        fill=_copy.deepcopy(c.fill), lat=c.lat, trcl=c.trcl)
+            c2.hints['fill_by_option'] = True
+            c2.hints['raw'] = '%d like %d but u=%d' % (c2.id, c.id, u2)
+            hosts = [x for x in d.cells if x.u == 0 and x.fill is None and x.imp != 0] or \
+                    [x for x in d.cells if x.fill is not None and x.fill.get('u') == c.u]
+            if not hosts:
+                return None
+            host = rng.choice(hosts)
+            host.mat, host.rho = 0, None
+            host.fill = {'u': u2, 'tr': None}
+            d.cells.append(c2)
         detail = variant
         text = D.render_deck(d, D.Layout(rng))
     elif fault == 'lat-dim':
